@@ -73,6 +73,10 @@ func msmPoints(cls string, n int, p *prg) []banderwagon.Element {
 func msmScalars(cls string, n, smallPct int, p *prg) []*big.Int {
 	out := make([]*big.Int, n)
 	for i := 0; i < n; i++ {
+		if cls == "aligned" { // set bits at the same position of different limbs
+			out[i] = scalarClass([]string{"2^64+1", "2^128+1", "2^192+1", "2^69+2^5", "2^200+2^8", "3bits"}[i%6], p)
+			continue
+		}
 		if cls == "asmont" { // canonical values that look like Montgomery forms of small numbers (and the reverse)
 			out[i] = montClass([]string{"asmont:1", "asmont:2", "asmont:-1", "asmont:R", "mont:1", "mont:2^64"}[i%6])
 			continue
